@@ -40,6 +40,7 @@ type Actor struct {
 	depth  int // >0 while inside a controlled critical section
 	client *Client
 	consec int // consecutive grants without any logged event (spin detection)
+	freeN  int // hooks passed during teardown
 	lastEv int
 	Spun   bool
 	nLock  int // number of lock hooks passed (for descriptors)
@@ -247,6 +248,20 @@ func (x *Exec) hook(kind, site string, obj any) {
 		hint = site
 	}
 	a := x.actorLocked(g, hint)
+	if x.free && g != x.root {
+		// teardown (hooks pass through): a goroutine that keeps coming back here is looping without
+		// progress; it is parked for good, or the bubble would never settle
+		a.freeN++
+		if a.freeN > 2000 {
+			first := !a.Spun
+			a.Spun = true
+			x.mu.Unlock()
+			if first {
+				x.Log(trace.E{"ev": "spin", "actor": a.Name, "n": a.freeN, "teardown": true})
+			}
+			select {}
+		}
+	}
 	if g == x.root {
 		// calls made by the controller itself (probes, setup) run straight through
 		switch kind {
@@ -607,6 +622,11 @@ func (x *Exec) Drain() {
 	x.free = true
 	var ps []*Park
 	for _, a := range x.order {
+		if a.Spun {
+			// a goroutine that was seen looping without progress stays parked for good: released into
+			// pass-through hooks it would spin on the CPU and the bubble would never settle again
+			continue
+		}
 		if a.park != nil && a.park.Kind != "user" {
 			ps = append(ps, a.park)
 			a.park = nil
